@@ -220,3 +220,12 @@ package packets
 // verif:func packets.Packet.SubscribeValidate pure
 // verif:func packets.Packet.UnsubscribeValidate pure
 // verif:func packets.Packet.AuthValidate pure
+
+// ---- C13: a CONNECT that violates the protocol is never accepted (MQTT 3.1 / 3.1.1 / 5, section 3.1) ----
+// verif:def isMQIsdp(b []byte) bool = len(b) == 6 && b[0] == 'M' && b[1] == 'Q' && b[2] == 'I' && b[3] == 's' && b[4] == 'd' && b[5] == 'p'
+// verif:def isMQTT(b []byte) bool = len(b) == 4 && b[0] == 'M' && b[1] == 'Q' && b[2] == 'T' && b[3] == 'T'
+// verif:func packets.Packet.ConnectValidate
+//@ ensures C13-protocol-name-and-level-pair: r0.Code == 0 ==> (isMQIsdp(pk.Connect.ProtocolName) && pk.ProtocolVersion == 3) || (isMQTT(pk.Connect.ProtocolName) && (pk.ProtocolVersion == 4 || pk.ProtocolVersion == 5))
+//@ ensures C13-reserved-bit-zero: r0.Code == 0 ==> pk.ReservedBit == 0
+//@ ensures C13-user-and-password-flags-consistent: r0.Code == 0 ==> (!pk.Connect.UsernameFlag ==> len(pk.Connect.Username) == 0) && (pk.Connect.PasswordFlag <==> len(pk.Connect.Password) > 0) && len(pk.Connect.Password) <= 65535 && len(pk.Connect.Username) <= 65535
+//@ ensures C13-will-fields-consistent: r0.Code == 0 ==> (pk.Connect.WillFlag ==> len(pk.Connect.WillPayload) > 0 && pk.Connect.WillTopic != "" && pk.Connect.WillQos <= 2) && (!pk.Connect.WillFlag ==> !pk.Connect.WillRetain)
